@@ -151,3 +151,84 @@ def cover_unichan(c, name, threads, l1_checks, n=4, maxs=1, max_paths=None,
         judge_chan(c, scns, nm, trace, runs, v1, "Trace_AbsUni", l1c)
     return graph.replay_cover(c, name, "MC_UniChan", graph.tla_script(threads, unichan_fmt), mc, sc, "Trace_UniChan", tc, invariants=list(invariants),
                               step_expr=None, judge_fn=jf, max_paths=max_paths)
+
+
+def multichan_fmt(idmap):
+    """harness operations -> TLA+ script operations of MC_MultiChan; `idmap`: harness stream number -> channel stream id"""
+    def sid(h):
+        return idmap[h] if idmap else h
+
+    def fmt(o):
+        n = o["op"]
+        if n == "send":
+            return "S(%d)" % o["v"]
+        if n == "drive":
+            return "Dv(%d, %d)" % (sid(o["s"]), o["max"])
+        if n == "poll":
+            return "Pl(%d)" % sid(o["s"])
+        if n == "cancel_all":
+            return "X"
+        if n == "create":
+            return "Cr"
+        if n == "drop_stream":
+            return "Dp(%d)" % sid(o["s"])
+        raise ToolError("multichan_fmt: no TLA+ form for op %s" % n)
+    return fmt
+
+
+MULTICHAN_INV = ("InvRingBounds", "InvLocks", "InvNeverFull", "NoPanic", "InvRunningCount", "InvListInSync")
+MULTICHAN_DELIVERY = ("InvNoDuplicates", "InvProducerOrder", "InvNothingOld", "InvAllDelivered")
+
+
+def multichan_consts(threads, initial, maxs, n, w):
+    return {"N": n, "W": w, "MaxS": maxs, "Procs": list(range(len(threads)))}
+
+
+def judge_multichan(c, l1_checks, n, nthreads):
+    from .chan import multi_consts, judge_chan
+    tc = {"N": n, "W": 64}
+
+    def jf(scns, nm, trace, runs, v):
+        for x in v["violations"]:
+            s2 = dict([q for q in scns if q["id"] == x["run"]["scn"]][0])
+            s2["explore"] = {"mode": "replay", "schedules": [x["run"]["choices"]]}
+            c.violation("%s (MultiChan) violated by the real code (scenario %s, run %d)" % (x["inv"], x["run"]["scn"], x["run"]["run"]),
+                        {"scenario": s2, "run": x["run"], "events": extract_run(trace, x["run"]), "module": "Trace_MultiChan", "consts": {}, "invariant": x["inv"]})
+        l1c = multi_consts(n, nthreads, l1_checks)
+        v1 = validate_trace(trace, runs, "Trace_AbsMulti", l1c, "%s_%s_l1" % (c.prop, nm), parallel=8)
+        c.tv_states += v1["states"]
+        for e in v1["errors"]:
+            c.tool_errors.append("L1 validation of %s: %s" % (nm, e))
+        log("[conf] %-22s %-20s runs %6d (L1 verdicts of the same executions) ok %6d mismatch %3d l1-viol %3d" % (nm, "Trace_AbsMulti", len(runs), v1["runs_ok"], len(v1["mismatches"]), len(v1["violations"])))
+        judge_chan(c, scns, nm, trace, runs, v1, "Trace_AbsMulti", l1c)
+    return jf
+
+
+def cover_multichan(c, name, threads, l1_checks, initial=2, maxs=2, n=4, idmap=None, max_paths=None, invariants=MULTICHAN_INV + MULTICHAN_DELIVERY + ("InvNoLostWakeup", "InvCancelEnds"),
+                    constraint=None):
+    """the Arc-based atomic Multi channel: every transition of the MultiChan state graph (one ring per listener + the fan-out loop + the streams
+       manager's create / drop / list rebuild / wake / waker-registration / cancel protocol + the executor tasks) is replayed into the real
+       channel; each replay is validated scheduling point by scheduling point against MultiChan (L2) and judged by Trace_AbsMulti (L1)"""
+    from .chan import cscn
+    procs = list(range(len(threads)))
+    mc = {"N": n, "W": 4 * n, "MaxS": maxs, "Procs": procs, "Initial": set(range(initial))}
+    tc = {"N": n, "W": 64, "MaxS": maxs, "Procs": procs}
+    sc = cscn(name, "multi_arc_atomic", n, maxs, threads, None, pre_streams=initial, payload="u64")
+    sc["record_ops"] = True
+    return graph.replay_cover(c, name, "MC_MultiChan", graph.tla_script(threads, multichan_fmt(idmap)), mc, sc, "Trace_MultiChan", tc, invariants=list(invariants),
+                              step_expr=None, judge_fn=judge_multichan(c, l1_checks, n, len(threads)), max_paths=max_paths, constraint=constraint)
+
+
+def conform_multichan(c, name, scns, l1_checks, maxs=2, n=4, nthreads=4):
+    """implementation -> specification at L2: explored (DFS / random) executions of the real Arc-based atomic Multi channel with every scheduling
+       point recorded, validated against MultiChan and judged by Trace_AbsMulti"""
+    for s in scns:
+        s["record_ops"] = True
+    tc = {"N": n, "W": 64, "MaxS": maxs, "Procs": list(range(nthreads))}
+    trace, runs, v = c.conform(scns, name, "Trace_MultiChan", tc)
+    if v["mismatches"]:
+        c.drift.append("%s: %d run(s) of the real channel are not behaviours of MultiChan (first unmatched event: %s)" % (name, len(v["mismatches"]), json.dumps(v["mismatches"][0]["event"])[:300]))
+    if v["unvalidated"]:
+        c.tool_errors[:] = [e for e in c.tool_errors if not str(e).startswith("UNVALIDATED[%s]" % name)]
+    judge_multichan(c, l1_checks, n, nthreads)(scns, name, trace, runs, v)
+    return trace, runs, v
